@@ -60,6 +60,7 @@ type FuncContract struct {
 	Wraps    bool      // arithmetic intentionally wraps (int mode: no overflow obligations)
 	Decoder  bool      // C11: inputs unconstrained, termination mandatory
 	IgnoreChan bool    // channel sends are no-ops (explicit assumption)
+	NameMerges bool              // a heap that differs between the paths meeting at a join gets a fresh name there (defined by an equation)
 	PerReturn  bool              // postconditions are evaluated on the state of each return statement separately (not on the merged exit state)
 	AssumePre  map[string]string // callees whose preconditions are assumed, not checked, in this function ("*": all, else the label of the one assumed)
 	Abstract []string  // abstracted instruction patterns
@@ -153,7 +154,7 @@ var clauseKW = map[string]bool{
 	"func": true, "spec": true, "lemma": true, "axiom": true, "trusted": true, "mode": true, "props": true,
 	"requires": true, "ensures": true, "modifies": true, "loop": true, "inline": true,
 	"pure": true, "nullable": true, "may_alias": true, "panics": true, "wraps": true,
-	"decoder": true, "abstract": true, "ghost": true, "terminates": true, "uninterp": true, "at": true, "opaque": true, "def": true, "macro": true, "returns": true, "table": true, "anymode": true, "uses": true, "embedded": true, "ghostfield": true, "channels": true, "assumes": true,
+	"decoder": true, "abstract": true, "ghost": true, "terminates": true, "uninterp": true, "at": true, "opaque": true, "def": true, "macro": true, "returns": true, "merges": true, "table": true, "anymode": true, "uses": true, "embedded": true, "ghostfield": true, "channels": true, "assumes": true,
 }
 
 var reTag = regexp.MustCompile(`^(\w+)\[([A-Z0-9, ]+)\]`)
@@ -524,6 +525,14 @@ func (cs *Contracts) ParseContractFile(path, pkgPath string) error {
 				if len(f) == 3 {
 					cur.AssumePre[f[1]] = f[2][1:]
 				}
+			case "merges":
+				// "merges named": where paths meet, a heap that differs between them is given a fresh
+				// symbol, defined by an equation with the if-then-else of the path versions; later terms
+				// mention the symbol instead of carrying the if-then-else into every read
+				if strings.TrimSpace(rest) != "named" {
+					return fail("expected 'merges named'")
+				}
+				cur.NameMerges = true
 			case "returns":
 				// "returns separately": each postcondition is evaluated on the state of every return
 				// statement in turn (the obligation is their conjunction) instead of on the merged exit
